@@ -123,11 +123,21 @@ void check_optimizer_against_model(Tape& t, Ctx& ctx, Opt& opt, const Config& c,
     }
   }
   // evaluate x0 and a perturbed x with the built-in workspace; the exposed spline must be the one defined by the decision vector
-  for (int pass = 0; pass < 2; ++pass) {
+  // (half of the runs finish with the initial guess once more, so that an object's last evaluation before its next reconfiguration
+  //  used exactly the durations its first evaluation afterwards will use)
+  const int npass = t.flag() ? 3 : 2;
+  for (int pass = 0; pass < npass; ++pass) {
     Eigen::VectorXd x = x0;
     if (pass == 1) {
       for (int i = 0; i < x.size(); ++i) x(i) += (i < N ? t.sym(8) / 32.0 : (1 + t.range(0, 62)) / 16.0 * (t.flag() ? 1 : -1));
       for (int i = 0; i < N; ++i) { int guard = 0; while (!(tm.toTime(x(i)) >= 0.05) && guard++ < 8) x(i) = 0.5 * (x(i) + x0(i)); if (!(tm.toTime(x(i)) >= 0.05)) x(i) = x0(i); }
+      // "every decision vector": time variables that decode far below the shortest duration a reference problem may contain
+      if (t.chance(1, 6)) {
+        static const double kTiny[] = {4e-4, 1e-4, 2e-5};
+        double Tt = kTiny[t.range(0, 2)]; int which = t.range(0, N);
+        for (int i = 0; i < N; ++i) if (which == N || which == i) x(i) = tm.toTau(Tt);
+        ctx.label("x:tiny-duration");
+      }
     }
     Eigen::VectorXd g;
     double cost = opt.evaluate(x, g, costs.tc, costs.wc, costs.rc);
@@ -137,7 +147,7 @@ void check_optimizer_against_model(Tape& t, Ctx& ctx, Opt& opt, const Config& c,
     VCHECK(ctx, os != nullptr, "optimal-spline-null", who << ": getOptimalSpline() is null after an evaluation with the built-in workspace");
     std::vector<double> T; MatrixType P; BoundaryConditions<D> bc;
     model_decode(c, tm, sm, identity_spatial, x, L, T, P, bc);
-    const char* ps = pass == 0 ? "initial guess" : "perturbed vector";
+    const char* ps = pass == 0 ? "initial guess" : (pass == 1 ? "perturbed vector" : "initial guess again");
     VCHECK(ctx, os->getNumSegments() == N && os->getStartTime() == c.prob.t0, "decode", who << " (" << ps << "): exposed spline has " << os->getNumSegments() << " segments / start " << g17(os->getStartTime()));
     for (int i = 0; i < N; ++i)
       VCHECK(ctx, same_val(os->getTimeSegments()[i], T[i]), "decode-time", who << " (" << ps << "): duration " << i << " of the exposed spline is " << g17(os->getTimeSegments()[i]) << " but toTime(x_" << i << ") = " << g17(T[i]));
@@ -154,6 +164,9 @@ void check_optimizer_against_model(Tape& t, Ctx& ctx, Opt& opt, const Config& c,
         VCHECK(ctx, std::fabs(P(i, d) - c.prob.P(i, d)) <= 1e-9 * (1 + std::fabs(c.prob.P(i, d))) * 16, "roundtrip-waypoint", who << ": initial guess decodes waypoint " << i << " to " << g17(P(i, d)) << " instead of " << g17(c.prob.P(i, d)));
     }
     Spline fresh(T, P, c.prob.t0, bc);
+    VCHECK(ctx, os->getTrajectory().getBreakpoints() == fresh.getTrajectory().getBreakpoints() && os->getCumulativeTimes() == fresh.getCumulativeTimes() && same_val(os->getEndTime(), fresh.getEndTime()) &&
+                    same_val(os->getDuration(), fresh.getDuration()),
+           "exposed-spline", who << " (" << ps << "): knot times / end time of the exposed spline (end " << g17(os->getEndTime()) << ") are not start time + decoded durations (end " << g17(fresh.getEndTime()) << ")");
     VCHECK(ctx, mat_same_bits(os->getTrajectory().getCoefficients(), fresh.getTrajectory().getCoefficients()), "exposed-spline", who << " (" << ps << "): coefficients of the exposed spline differ from a spline built from the decoded inputs: " << first_diff(os->getTrajectory().getCoefficients(), fresh.getTrajectory().getCoefficients()));
   }
 }
@@ -244,9 +257,19 @@ void c09_hist(Tape& t, Ctx& ctx) {
     int kind = have ? t.pickw({2, 3, 2, 2, 5}) : 0;
     const char* on = "";
     switch (kind) {
-      case 0: {  // new initial state (possibly a different N)
-        raw = gen_problem(t, t.rangez(1, 6, 2));
-        on = "setInitState";
+      case 0: {  // new initial state (possibly a different N); a third of the re-initialisations change ONE ingredient of the current one
+        if (have && t.chance(1, 3)) {
+          switch (t.range(0, 3)) {
+            case 0: raw.t0 = t.sym(80) / 8.0; break;                                       // start time only
+            case 1: bcf(raw.bc, t.flag(), t.range(1, 3))(t.range(0, D - 1)) += 0.5; break;  // one boundary component
+            case 2: raw.P(t.range(0, raw.N()), t.range(0, D - 1)) += 0.25; break;          // one waypoint coordinate
+            default: break;                                                                 // identical resubmission
+          }
+          on = "setInitState(one ingredient changed)";
+        } else {
+          raw = gen_problem(t, t.rangez(1, 6, 2));
+          on = "setInitState";
+        }
         break;
       }
       case 1: c.flagbits = (unsigned)t.range(0, 255); opt.setOptimizationFlags(flags_from_bits(c.flagbits)); on = "setOptimizationFlags"; reconfigured_since_query = true; break;
